@@ -1,6 +1,11 @@
 (* Driver of the extracted C22 / C29 models (coq/Th/DLParse.v, coq/Th/BoundStack.v).
    stdin, one request per line:
      P <strict 0|1> <c> { <k> <var> <cf 0|1> }*      parse of the atom  c <= sum k*x_var
+     BS reset                                         bound stack := bs_init, empty store
+     BS store { <id>:<idx>:<r>:<d> }*                 the bound store (position, value r + d*delta) of every bound id
+     BS assert <id> <var> <U|L>                       assert_bound; answers  conflict=<0|1>
+     BS back <n>                                      backtrack n
+     BS state <nvars>                                 lim .. trace .. | v0 L .. U .. | ...   (oldest first, as the C++ vectors)
    stdout: one answer line per request. *)
 open Tsolver_model
 
@@ -34,8 +39,42 @@ let rec smds = function
   | k :: v :: cf :: r -> { s_k = q_of_string k; s_v = pos_of_string v; s_cf = (cf = "1") } :: smds r
   | _ -> failwith "bad summands"
 
+let rec nat_of_int n = if n <= 0 then O else S (nat_of_int (n - 1))
+let rec int_of_nat = function O -> 0 | S n -> 1 + int_of_nat n
+let bstate = ref bs_init
+let bstore : (int * (nat * (q * q))) list ref = ref []
+let store_fun (i : nat) : nat * (q * q) =
+  match List.assoc_opt (int_of_nat i) !bstore with
+  | Some x -> x
+  | None -> (O, ({ qnum = Z0; qden = XH }, { qnum = Z0; qden = XH }))
+let ids l = String.concat " " (List.rev_map (fun b -> string_of_int (int_of_nat b.b_id)) l)
+let handle_bs = function
+  | ["reset"] -> bstate := bs_init; bstore := []; "ok"
+  | "store" :: es ->
+    bstore := List.map (fun e -> match String.split_on_char ':' e with
+      | [id; idx; r; d] -> (int_of_string id, (nat_of_int (int_of_string idx), (q_of_string r, q_of_string d)))
+      | _ -> failwith "bad store entry") (List.filter (fun e -> e <> "") es);
+    "ok"
+  | ["assert"; id; v; t] ->
+    let b = { b_id = nat_of_int (int_of_string id); b_var = nat_of_int (int_of_string v); b_upper = (t = "U") } in
+    let c = assert_conflicts store_fun !bstate b in
+    bstate := assert_bound store_fun !bstate b;
+    "conflict=" ^ (if c then "1" else "0")
+  | ["back"; n] -> bstate := backtrack (nat_of_int (int_of_string n)) !bstate; "ok"
+  | ["state"; nv] ->
+    let s = !bstate in
+    let buf = Buffer.create 64 in
+    Buffer.add_string buf ("lim " ^ String.concat " " (List.rev_map (fun n -> string_of_int (int_of_nat n)) s.limits));
+    Buffer.add_string buf (" trace " ^ ids s.trace);
+    for v = 0 to int_of_string nv - 1 do
+      Buffer.add_string buf (Printf.sprintf " | v%d L %s U %s" v (ids (s.lists (nat_of_int v) false)) (ids (s.lists (nat_of_int v) true)))
+    done;
+    Buffer.contents buf
+  | _ -> "bad"
+
 let handle l =
   match String.split_on_char ' ' l with
+  | "BS" :: rest -> handle_bs rest
   | "P" :: strict :: c :: rest ->
     let a = { a_c = q_of_string c; a_sum = smds rest } in
     let p = match parseRef (strict = "1") a with
